@@ -500,3 +500,40 @@ CHECKS["C20"] = dict(
     technique="property-based testing (rapid) of concurrent programs under the Go race detector",
     design_ref="DESIGN.md section 4, C20",
 )
+
+# Generators widened after the seeded-change rounds 3-5 (DESIGN.md 9c-9e); appended to the rule texts so that
+# the evidence files describe what is generated now.
+_WIDENED = {
+    "C01": "a quarter of the identities repeat one reading (points that differ in nothing but their time).",
+    "C02": "histories also mirror a leaf under a second parent inside the device tree; the convergence wait extends while the "
+           "difference keeps changing (25 s without change, 150 s at most).",
+    "C04": "one node-point batch in six has 33-150 points (all of it or none of it after a crash).",
+    "C07": "a child is added (or one removed and another added) from inside the client constructor, i.e. between the manager's "
+           "read of the children and its subscription; child changes are written with the managed node's own id as origin half "
+           "of the time.",
+    "C08": "the clock base is drawn (2017, now, 2027); some batches carry exactly the time of the batch before; a node first "
+           "placed outside the subtree and then mirrored into it; batches with a NaN (refused: nobody is told); blank map keys; "
+           "TestEnumBurstWhileClientBusy: 700 and 1500 batches accepted while the client sits in a callback.",
+    "C09": "earlier tokens list again after every step (also after the user was deleted); one stored e-mail has capitals; "
+           "TestEnumBusTokenRealServer runs whole instances.",
+    "C10": "the flat struct has untagged fields with initialisms and pointer fields; child ids are in no particular order.",
+    "C11": "decimal keys around every power of two up to 2^65 and random 64-bit numbers; a second target type with unexported "
+           "(unsettable) fields at the top level and in nested structs.",
+    "C12": "point types the system gives a meaning to and names of wire fields; data.Message and data.Notification.",
+    "C13": "one action in six lacks its target or point type (the rest of the list must still run; error points are not "
+           "compared); values a hair from the threshold and fractional thresholds; point origins drawn, the rule's own id "
+           "included; dates combined with an all-false weekday array; the process runs in a local zone of UTC+13.",
+    "C15": "targets also: preserved ids under a parent with another id or under the root of a second instance, restore over "
+           "the deleted original, restore over a changed original, whole instance imported onto itself at root; keys 00, -0, "
+           "+0, 0.0, 0x0; generated times lie in the past.",
+    "C16": "undamaged streams: frames that fill the read buffer exactly, idle delimiter runs (ending at a read boundary), empty "
+           "(0, nil) device reads, the caller overwrites its buffer after every read; damage: runs of 1-3 overwritten or inserted "
+           "bytes, 1-8 lost bytes, noise of up to buffer+10 bytes, frames leave five spare bytes there.",
+    "C19": "every conversion must leave its argument unchanged.",
+    "C20": "requests that must be refused (delete root, self parent, cycle, NaN) are part of the load; a third of the cases send "
+           "a burst of 300/600 reads or 120 writes without waiting; every request waits progress-based (unanswered = the store "
+           "answered nobody for a whole time-out); a publisher that does not wait goes on while the store stops; "
+           "TestEnumServerStop has a flood publisher and one round with more than ten seconds of uptime.",
+}
+for _id, _txt in _WIDENED.items():
+    CHECKS[_id]["rule"] = CHECKS[_id]["rule"].rstrip() + " Widened later: " + _txt
